@@ -228,8 +228,8 @@ class World:
         self._seq += 1
         heapq.heappush(self.evq, (t, self._seq, kind, payload))
 
-    def spawn(self, name, kind, args, ip=None):
-        """kind: 'S' or 'C0'..'C2'; args: list of str/bytes (argv[1:])"""
+    def spawn(self, name, kind, args, ip=None, env=None):
+        """kind: 'S' or 'C0'..'C2'; args: list of str/bytes (argv[1:]); env: {NAME: value} set while the program starts"""
         if ip is None:
             ip = SERVER_IP if kind == "S" else "10.9.1.%d" % (int(kind[1]) + 1)
         inst = Inst(name, kind, ip)
@@ -239,8 +239,12 @@ class World:
         for a in args:
             argv.append(a if isinstance(a, bytes) else a.encode("latin-1"))
         self.k.cmd("time %d" % self.now)
+        for nm, val in (env or {}).items():
+            self.k.cmd("env %s %s" % (nm, hx(val if isinstance(val, bytes) else val.encode("latin-1"))))
         evs = self.k.cmd("spawn %s %s %d %s" % (name, kind, self.seed * 16 + len(self.order),
                                                  " ".join(hx(a) for a in argv)))
+        for nm in (env or {}):
+            self.k.cmd("unenv %s" % nm)
         self.ev(ev="Spawn", inst=name, args=[a.decode("latin-1") for a in argv[1:]])
         self._process(inst, evs)
         return inst
